@@ -198,6 +198,20 @@ func (b *Backends) SortChangedEndpoints(sortBy string) {
 	}
 }
 
+// FillAllSourceIPs ...
+func (b *Backends) FillAllSourceIPs() {
+	for _, backend := range b.items {
+		backend.fillSourceIPs()
+	}
+}
+
+// SortAllEndpoints ...
+func (b *Backends) SortAllEndpoints(sortBy string) {
+	for _, backend := range b.items {
+		backend.sortEndpoints(sortBy)
+	}
+}
+
 // ShuffleAllEndpoints ...
 func (b *Backends) ShuffleAllEndpoints() {
 	for _, backend := range b.items {
